@@ -2,6 +2,7 @@ package c20
 
 import (
 	"fmt"
+	"regexp"
 	"sort"
 	"strings"
 	"testing"
@@ -428,6 +429,64 @@ func diffUnits(want, got []string) string {
 	return fmt.Sprintf("text units of the body missing in the Markdown: %v; units in the Markdown not in the body: %v", miss, extra)
 }
 
+func skeleton(s string) string {
+	return strings.Map(func(r rune) rune {
+		if unicode.IsLetter(r) || unicode.IsDigit(r) || unicode.IsMark(r) {
+			return r
+		}
+		return -1
+	}, s)
+}
+
+var reOrderedMarker = regexp.MustCompile(`(?m)^\d+[.)] `)
+
+// diffSkeleton: letters and digits of the Markdown against those of the body text in body order. The order of
+// tables relative to text blocks is E1's business: the tables-last order is accepted here as well, and so is
+// a numeric list marker where the body has numbered items.
+func diffSkeleton(c Case, md string) string {
+	var inOrder, text, tables strings.Builder
+	ordered := false
+	for _, b := range c.Blocks {
+		k := skeleton(b.text())
+		inOrder.WriteString(k)
+		if b.K == "table" {
+			tables.WriteString(k)
+		} else {
+			text.WriteString(k)
+		}
+		ordered = ordered || (b.K == "li" && b.Ord)
+	}
+	got := []string{skeleton(md)}
+	if ordered {
+		got = append(got, skeleton(reOrderedMarker.ReplaceAllString(md, "")))
+	}
+	for _, g := range got {
+		if g == inOrder.String() || g == text.String()+tables.String() {
+			return ""
+		}
+	}
+	w := inOrder.String()
+	i := 0
+	for i < len(w) && i < len(got[0]) && w[i] == got[0][i] {
+		i++
+	}
+	lo := i - 20
+	if lo < 0 {
+		lo = 0
+	}
+	cut := func(x string) string {
+		hi := i + 20
+		if hi > len(x) {
+			hi = len(x)
+		}
+		if lo > len(x) {
+			return ""
+		}
+		return x[lo:hi]
+	}
+	return fmt.Sprintf("letters and digits of the body text and of the Markdown differ from position %d: body ...%q, markdown ...%q", i, cut(w), cut(got[0]))
+}
+
 // diffFormat compares formatting only on units whose text occurs equally often on both sides.
 func diffFormat(want, got []string) string {
 	split := func(u []string) map[string][]string {
@@ -500,11 +559,25 @@ func run(c Case) *kit.Result {
 
 	res.Eval("C20.E1")
 	if d := diffSeq(want, got); d != "" {
-		res.Fail("C20.E1", "order: %s | body: %s | markdown blocks: %s | markdown: %q", d, descrAll(want), descrAll(got), md1)
+		tag := explain(c, func(e effect) bool { return e.seq1 != nil }, func(sel []effect) bool {
+			w := want
+			for _, e := range sel {
+				w = e.seq1(w)
+			}
+			return diffSeq(w, got) == ""
+		})
+		res.Fail("C20.E1", "%sorder: %s | body: %s | markdown blocks: %s | markdown: %q", tag, d, descrAll(want), descrAll(got), md1)
 	}
 	res.Eval("C20.E2")
 	if d := diffUnits(units(want, false), units(got, false)); d != "" {
 		res.Fail("C20.E2", "text: %s | markdown: %q", d, md1)
+	}
+	// E2r: the same demand on the raw string, independent of any Markdown reading and therefore judged on every
+	// case, hostile classes included: delimiters, escapes, markers and fences are punctuation, so the letters and
+	// digits of the Markdown must be exactly the letters and digits of the body's text, block after block.
+	res.Eval("C20.E2r")
+	if d := diffSkeleton(c, ref); d != "" {
+		res.Fail("C20.E2r", "text: %s | markdown: %q", d, md1)
 	}
 	res.Eval("C20.E3")
 	if d := diffFormat(units(want, true), units(got, true)); d != "" {
@@ -524,7 +597,14 @@ func run(c Case) *kit.Result {
 	res.Eval("C20.E4")
 	back := readDoc(doc2)
 	if d := diffSeq(want, back); d != "" {
-		res.Fail("C20.E4", "round trip: %s | body: %s | re-imported: %s | markdown: %q", d, descrAll(want), descrAll(back), md1)
+		tag := explain(c, func(e effect) bool { return e.seq4 != nil }, func(sel []effect) bool {
+			w := want
+			for _, e := range sel {
+				w = e.seq4(w)
+			}
+			return diffSeq(w, back) == ""
+		})
+		res.Fail("C20.E4", "%sround trip: %s | body: %s | re-imported: %s | markdown: %q", tag, d, descrAll(want), descrAll(back), md1)
 	}
 	var md2 string
 	if p, st := kit.Try(func() { md2, err = markdown.NewExporter(nil).ExportToString(doc2, o) }); p != nil {
@@ -535,7 +615,18 @@ func run(c Case) *kit.Result {
 	if err != nil {
 		res.Fail("C20.E5", "second export failed: %v", err)
 	} else if md2 != md1 {
-		res.Fail("C20.E5", "fixpoint: export(convert(export(D))) differs from export(D): first %q, second %q", md1, md2)
+		tag := explain(c, func(e effect) bool { return e.norm5 != nil }, func(sel []effect) bool {
+			a, b, loose := md1, md2, false
+			for _, e := range sel {
+				a, b = e.norm5(c, a), e.norm5(c, b)
+				loose = loose || (e.loose5 != nil && e.loose5(c))
+			}
+			if loose {
+				a, b = norm(a), norm(b)
+			}
+			return a == b
+		})
+		res.Fail("C20.E5", "%sfixpoint: export(convert(export(D))) differs from export(D): first %q, second %q", tag, md1, md2)
 	}
 	attribute(c, res)
 	return res
@@ -546,7 +637,7 @@ func attribute(c Case, res *kit.Result) {
 	for _, f := range res.Failures {
 		who := "none"
 		for _, k := range kfs {
-			if strings.Contains(" "+k.clauses+" ", " "+f.Clause+" ") && k.pred(c) {
+			if k.attributes(c, f) {
 				who = k.id
 				break
 			}
@@ -621,13 +712,33 @@ func describe(c Case, res *kit.Result) {
 	}
 	res.Label("opt:bullet" + o.Bullet)
 	res.Label("opt:emph" + o.Emph)
-	trig := triggered(c)
-	for _, t := range trig {
-		res.Label("trigger:" + t)
+	class, exact := triggered(c)
+	for _, t := range class {
+		res.Label("class-mask:" + t)
 	}
-	if len(trig) == 0 {
+	for _, t := range exact {
+		res.Label("exact-mask:" + t)
+	}
+	// fully-judged: every clause E1-E5 is decided exactly - either outright, or (for the exact findings the case
+	// is in) against the body after exactly the predicted effect; no clause is waived for the case's input class.
+	if len(class) == 0 {
 		res.Label("fully-judged")
+		if between {
+			res.Label("fully-judged:table-between-paragraphs")
+		}
+		if fmtRuns >= 2 {
+			res.Label("fully-judged:formatted-runs>=2")
+		}
+		for _, k := range []string{"li", "q", "code", "h", "table", "empty"} {
+			if kinds[k] {
+				res.Label("fully-judged:kind:" + k)
+			}
+		}
+		if len(exact) == 0 {
+			res.Label("unmasked") // no finding of any kind applies: E1-E5 outright
+		}
 	}
+	trig := append(append([]string{}, class...), exact...)
 	res.Nontrivial = between && fmtRuns >= 2 && len(kinds) >= 3
 	res.Shape = strings.Join(shape, "|") + fmt.Sprintf("|%v%v%s%s%v%d%v", o.GFM, o.Setext, o.Bullet, o.Emph, o.Wrap, o.MaxLen, o.Meta) + "|" + strings.Join(trig, ",")
 }
@@ -661,16 +772,20 @@ func tableBetweenParagraphs(c Case) bool {
 func TestC20(t *testing.T) {
 	kit.Main(t, kit.Spec[Case]{
 		ID: "C20", Level: "exploration",
-		Rule: "document of 1-10 (thorough 1-16) blocks drawn from headings 1-9, paragraphs of 1-5 runs (bold/italic/strike/code-font combinations), bullet and numbered list items, Quote and CodeBlock paragraphs, 1-5 x 1-5 tables and empty paragraphs, in any interleaving, under every combination of export options; mode clean (about half: safe alphabet, no shape that an open finding names), benign (lists, code blocks, empty paragraphs, plain table headers, multi-format runs) and wild (hostile text classes, simple tables, metadata, wrapping of formatted text); non-trivial = a table between two text blocks, >= 2 formatted runs and >= 3 block kinds; distinct = distinct sequence of (block kind, heading level, run format masks, table size) + options + triggered finding classes",
+		Rule: "document of 1-10 (thorough 1-16) blocks drawn from headings 1-9, paragraphs of 1-5 runs (bold/italic/strike/code-font combinations), bullet and numbered list items, Quote and CodeBlock paragraphs, 1-5 x 1-5 tables (bold or plain first row, empty cells) and empty paragraphs, in any interleaving, under every combination of export options (GFM/simple tables, setext, three bullet markers, two emphasis markers, wrapping at 1..80, metadata); modes clean (~45 %: safe alphabet, single formats), benign (~37 %: plus lists, code blocks, empty paragraphs, plain table headers, multi-format runs, Heading7-9) and wild (~18 %: hostile text classes, blanks at run edges, touching formatted runs, intraword underscore, code+emphasis, pipes in cells, simple tables, metadata, wrapped formatted text, list directly before a paragraph); non-trivial = a table between two text blocks, >= 2 formatted runs and >= 3 block kinds; distinct = distinct sequence of (block kind, heading level, run format masks, table size) + options + finding classes the case is in",
 		Gen:  genCase, Run: run, Findings: findings, Fixed: fixedCases,
 		Assumptions: []string{
-			"goldmark v1.7.8 with extension.GFM is taken as the reference reading of the exported Markdown (CommonMark 0.31 + GFM tables/strikethrough)",
+			"goldmark v1.7.8 with extension.GFM is the reference reading of the exported Markdown (CommonMark 0.31 + GFM tables/strikethrough/autolinks); backslash escapes and entities are resolved as a renderer would, autolink labels count as text",
 			"a leading '---' metadata block is removed before the reference parse when IncludeMetadata is set (front matter is outside CommonMark)",
-			"block text is compared after collapsing whitespace runs; paragraphs without visible text are not expected in the Markdown; heading levels 7-9 may come out at any level",
+			"block text is compared after collapsing whitespace runs; paragraphs without visible text are not expected in the Markdown; heading levels 7-9 may come out at any level; ordered vs bullet marker of a list item is not judged",
 			"the re-imported document is observed through Body.Elements (paragraph style / numbering properties / tables), default ConvertOptions",
+			"exact masks: for the findings with one predictable effect (tables last, '• ' paragraphs for items, extra blank line in re-exported fences, blank lines of empty paragraphs, bold first table row, flattened nested emphasis, Heading7/9 -> italic Heading6, front matter read back as a heading) the failing clause is re-judged against the body after exactly that effect and waived only if it then holds; label fully-judged = no clause of E1-E5 is waived for the case's input class (unmasked = not even an exact mask applies)",
+			"C20.E2r (letters and digits of the raw Markdown = letters and digits of the body text, in order) is judged on every case without any mask",
 		},
-		MustSee: map[string]float64{"fully-judged": 0.3, "table-between-paragraphs": 0.15, "formatted-runs>=2": 0.3, "opt:setext": 0.3, "opt:wrap": 0.2,
-			"opt:simple-tables": 0.015, "opt:metadata": 0.015, "kind:li": 0.05, "kind:code": 0.04, "kind:empty": 0.025, "kind:table": 0.4, "run:multi-format": 0.02,
-			"trigger:KF-C20-no-escape": 0.02, "trigger:KF-C20-edge-blank": 0.01, "trigger:KF-C20-adjacent-format": 0.01},
+		MustSee: map[string]float64{"fully-judged": 0.8, "unmasked": 0.38, "fully-judged:table-between-paragraphs": 0.12, "fully-judged:formatted-runs>=2": 0.25,
+			"fully-judged:kind:li": 0.1, "fully-judged:kind:code": 0.04, "fully-judged:kind:q": 0.2, "fully-judged:kind:empty": 0.015,
+			"table-between-paragraphs": 0.15, "formatted-runs>=2": 0.3, "opt:setext": 0.3, "opt:wrap": 0.2,
+			"opt:simple-tables": 0.008, "opt:metadata": 0.008, "kind:table": 0.4, "run:multi-format": 0.02,
+			"class-mask:KF-C20-no-escape": 0.02, "class-mask:KF-C20-edge-blank": 0.01, "class-mask:KF-C20-delimiter-context": 0.01},
 	})
 }
